@@ -80,7 +80,7 @@ def mutations(ctx, rng, name, f):
     out = []
     full = len(f) <= 16 and not ctx.quick
     for pos in range(0, len(f)):
-        vals = range(256) if full else rng.sample(range(256), 40 if not ctx.quick else 12) + list(range(0, 9)) + [0xFF, f[pos] ^ 0x08, f[pos] ^ 0x80, (f[pos] + 1) & 255]
+        vals = range(256) if full else rng.sample(range(256), 40 if not ctx.quick else 6) + list(range(0, 9)) + [0xFF, f[pos] ^ 0x08, f[pos] ^ 0x80, (f[pos] + 1) & 255]
         for v in sorted(set(vals)):
             if v != f[pos]:
                 out.append(("sub", pos, f[:pos] + bytes([v]) + f[pos + 1:]))
